@@ -12,7 +12,8 @@ Theorem C19_generated_atomicity :
   push_under_actlock = true /\ pop_under_actlock_r = true /\ pop_ring_bracket = true /\
   requeue_under_actlock_r = true /\ ack_under_actlock_r = true /\ purge_under_ringlock = true /\
   store_add_under_persistlock = true /\ store_update_under_persistlock = true /\ store_del_under_persistlock = true /\
-  persist_swaps_under_persistlock = true.
+  persist_swaps_under_persistlock = true /\
+  store_persist_under_flushlock = true /\ store_purgequeue_under_flushlock = true.
 Proof. repeat split; reflexivity. Qed.
 Print Assumptions C19_generated_atomicity.
 
@@ -135,9 +136,9 @@ Proof. vm_compute. repeat split; reflexivity. Qed.
    queue runs LoadFromMsgStorage over the same persistent store.  Specification: the ghost run [gspec_run] - the
    unlimited list with its delivered-unsettled set; a restart replaces the list by the persistent messages that
    were ready or delivered-unsettled, in id order.  Hypotheses [no_findings_restart]: as before, the queue is
-   durable, and a purge happens only when the persistent store has nothing pending and no persistent message is
-   delivered-unsettled (F41: what is pending is written after the purge and comes back at the restart; Purge also
-   deletes the store entries of unsettled deliveries). *)
+   durable, and a purge happens only when no persistent message is delivered-unsettled (open finding F41-unsettled:
+   Purge deletes the store entries of unsettled deliveries too).  What the persistent store holds pending at a purge
+   needs no hypothesis any more: the purge cancels it (F41, repaired in /repo 390cc62; the model follows). *)
 Theorem C19_refines_unlimited_with_restarts_partial : forall c ls,
   wf_client ls = true -> no_findings_restart c ls = true ->
   snd (q_run c q_init ls) = snd (gspec_run ghost_init ls) /\
